@@ -52,3 +52,11 @@ CLAIMS["C10"] = (
     "Trusts pandas broadcasting in the divisions and that Model.update_parameters invalidates the model cache (C03).",
     "DESIGN.md section 4 C10",
 )
+CLAIMS["C18"] = (
+    "saved/perturbed/restored typestate by path-enumerating abstract interpretation (with None-correlation) over every routine of mca.py that takes the model, plus sympy canonicalisation of the extracted difference quotients",
+    "Decides for all inputs: (M1) on every normal exit of variable_elasticities, parameter_elasticities, the response-coefficient worker and response_coefficients every write to the caller's model has been undone with a value saved before the perturbation (or was made on a private copy); "
+    "(M2) each coefficient expression equals (f(x(1+d)) - f(x(1-d)))/(2 d x) after canonicalisation, upper/lower are evaluated at the +/- displacement, and the scaled variant multiplies by x/f(unperturbed) under the flag; "
+    "(M3) one worker partial serves both execution modes with every option forwarded and results keyed by parameter. The 'model left untouched' and 'sequential = parallel' clauses are thereby decided structurally; numeric agreement with analytic sensitivities is not.",
+    "Trusts Model.update_variables to restore Variable objects; exceptional exits (a failing steady state raising) are not required to restore.",
+    "DESIGN.md section 4 C18",
+)
